@@ -159,9 +159,10 @@ func dumpReflectValue(b *strings.Builder, v reflect.Value) {
 
 // Node is one ast node found by reflection.
 type Node struct {
-	Ptr    interface{} // the node (pointer)
-	Parent interface{} // nearest enclosing node (nil for the root)
-	Kind   string
+	Ptr     interface{}   // the node (pointer)
+	Parent  interface{}   // nearest enclosing node at its first occurrence (nil for the root)
+	Parents []interface{} // every enclosing node: a node object can occur several times (the parser shares the literal `1` of all ++/-- expressions)
+	Kind    string
 }
 
 var (
@@ -194,10 +195,15 @@ func Nodes(root interface{}) []Node {
 			if v.Type().Implements(stmtType) && v.Elem().Kind() == reflect.Struct && v.CanInterface() {
 				p := v.Interface()
 				if seen[p] {
+					for i := range out {
+						if out[i].Ptr == p {
+							out[i].Parents = append(out[i].Parents, parent)
+						}
+					}
 					return
 				}
 				seen[p] = true
-				out = append(out, Node{Ptr: p, Parent: parent, Kind: v.Elem().Type().Name()})
+				out = append(out, Node{Ptr: p, Parent: parent, Parents: []interface{}{parent}, Kind: v.Elem().Type().Name()})
 				self = p
 			}
 			walk(v.Elem(), self)
